@@ -31,10 +31,12 @@ type set struct {
 var sets = map[string]set{
 	"xmss_state": {pkgDir: "xmss", hook: "xmss_state.go.txt"},
 	"xmss_int":   {pkgDir: "xmss", hook: "xmss_int.go.txt"},
-	"xmss_seams": {pkgDir: "xmss", hook: "xmss_seams.go.txt", seams: map[string]int{"genLeafWOTS": 7, "hashH": 6, "wotsSign": 7}},
-	"dil_arith":  {pkgDir: "dilithium", hook: "dil_arith.go.txt"},
-	"dil_pack":   {pkgDir: "dilithium", hook: "dil_pack.go.txt"},
-	"dil_sample": {pkgDir: "dilithium", hook: "dil_sample.go.txt"},
+	// optional: assembles a key object field by field (index bookkeeping at tall heights)
+	"xmss_handbuilt": {pkgDir: "xmss", hook: "xmss_handbuilt.go.txt"},
+	"xmss_seams":     {pkgDir: "xmss", hook: "xmss_seams.go.txt", seams: map[string]int{"genLeafWOTS": 7, "hashH": 6, "wotsSign": 7}},
+	"dil_arith":      {pkgDir: "dilithium", hook: "dil_arith.go.txt"},
+	"dil_pack":       {pkgDir: "dilithium", hook: "dil_pack.go.txt"},
+	"dil_sample":     {pkgDir: "dilithium", hook: "dil_sample.go.txt"},
 	// optional sets: vector-level helpers (a tree that reshapes them still gets the core domains, see ./check)
 	"dil_sample_vec": {pkgDir: "dilithium", hook: "dil_sample_vec.go.txt"},
 	"dil_arith_vec":  {pkgDir: "dilithium", hook: "dil_arith_vec.go.txt"},
